@@ -7,13 +7,25 @@ import (
 	"encoding/json"
 	"fmt"
 	"os"
+	"os/signal"
 	"strconv"
+	"syscall"
 
 	"verif/internal/core"
 	"verif/internal/props"
 )
 
 func main() {
+	// A process started as a background job of a non-interactive shell inherits SIGINT and SIGQUIT as
+	// "ignored", and so would every binary we start: an agent would then not react to a SIGINT sent before it
+	// installs its own handler (C20 sends one during start-up). Installing a handler here makes the kernel
+	// reset both signals to their default action in the children we exec.
+	sigc := make(chan os.Signal, 1)
+	signal.Notify(sigc, syscall.SIGINT, syscall.SIGQUIT)
+	go func() {
+		<-sigc
+		os.Exit(130)
+	}()
 	if len(os.Args) < 3 {
 		fmt.Fprintln(os.Stderr, "usage: vcheck <Cxx> quick|thorough | vcheck <Cxx> --replay <file>")
 		os.Exit(2)
